@@ -41,7 +41,9 @@ def expandOne (verts : List (String × List (String × String))) (i : RawInput) 
   else []
 
 def expandInputs (verts : List (String × List (String × String))) (ins : List RawInput) : List RawInput :=
-  ins.filter (fun i => !namesVertices verts i) ++ ins.flatMap (expandOne verts)
+  let kept := ins.filter (fun i => !namesVertices verts i)
+  -- a binding of <vertices> that the primitive also lists itself is the same input, not a second one
+  kept ++ (ins.flatMap (expandOne verts)).filter (fun d => !kept.contains d)
 
 /-! ### documented normalisations -/
 
